@@ -18,7 +18,10 @@ META = {
         text="Theorems for ALL capacities and ALL op histories (no bound): ring invariant, exact refinement of the physical ring to the history-defined "
              "outstanding list (growth/wrap/discard lose, duplicate, reorder nothing), AggregateUpTo = per-shard max over outstanding ids <= w, each shard "
              "once, count = outstanding slots <= w. Model tied to proxyIDRingBuffer by bounded-exhaustive + random differential runs of every op's "
-             "return value and the ring's internal view.",
+             "return value and the ring's internal view. Composition with C01-C04 (Props/C05R): for every routing run, faults included, the abstract per-target ring of the routing "
+             "model IS the C05 log of the ring operations that target performed (C05R_ring_is_log), its aggregate equals C05's expected values and count "
+             "(C05R_aggregate_is_expected), and the PHYSICAL ring buffer of any initial capacity answers the same (C05R_physical_ring_agrees[_int64]) - so the "
+             "routing theorems, proved over the abstract ring, hold for the machine that uses the real ring buffer.",
         design_ref="DESIGN.md §5 C05",
         note=BASE_NOTE + "Modelled not verified: int64 overflow of startProxyID+size (ids assumed < 2^62); Go slice/memory semantics.",
         technique="Lean 4 refinement proof (ring -> history-defined log) + model/implementation correspondence",
@@ -152,7 +155,11 @@ META = {
         text="Theorems: for every policy, method of either service and request, a name outside the allow-list among the names the visitor sees => refused before the "
              "handler; the visitor sees the name at the end of EVERY structural path of the current tree (C12's coverage theorem over regenerated facts: translation "
              "and access matching are the same traversal); ListNamespaces keeps exactly the allowed names in order; the decision has no bypass-header input. Tied to "
-             "the real interceptor on every kind of path with allowed/forbidden/empty names and combinations, and end to end with translation + bypass header.",
+             "the real interceptor on every kind of path with allowed/forbidden/empty names and combinations, and end to end with translation + bypass header. "
+             "Value level (Props/C16V, over the value-tree model of the visitor): the inbound pipeline translate-then-check refuses every request tree holding a "
+             "visited name that is not allowed, for both settings of the bypass header (C16V_forbidden_name_refused); the names the check sees after translation are "
+             "exactly translateName of the original visited names, same order (C16V_names_checked_are_translated_names, for every mapping the start-up validation "
+             "accepts), so the decision is a function of the original request (C16V_decision_on_original_request); unreadable requests are refused.",
         design_ref="DESIGN.md §5 C16",
         note=BASE_NOTE + "Shares C12's trusted translator. The end-to-end ordering translation -> ACL is observed on a running proxy, the interceptor chain itself is gRPC's.",
         technique="Lean 4 decision-logic theorems composed with C12's regenerated coverage theorem + model/implementation correspondence",
